@@ -17,6 +17,9 @@ STD_TRUSTED = [
     "Lean 4.33.0 kernel (leanchecker re-check in the thorough tier)",
     "axioms per theorem: subset of {propext, Classical.choice, Quot.sound}, audited by #print axioms on this run; no sorry/native_decide/bv_decide/axiom",
     "vcheck/translate.py (Python ast -> Gen/Tables.lean) renders literal tables faithfully",
+    "vcheck/py2lean.py dumps the Python ast of the listed functions faithfully into Gen/Src.lean; Model/PyAst.lean (evaluator of that Python "
+    "subset) and the per-property World dictionaries of Props/*Src.lean (which Python object / attribute is which model entity) are the "
+    "semantics under which the *Src theorems tie the source to the model",
     "correspondence harness, canonicalisers and the Lean driver's line parser",
     "modelled, not verified: pandas/numpy primitives, CPython, float arithmetic (idealised as exact), user callables",
 ]
